@@ -25,6 +25,7 @@ pack_partitions are compared as multisets of complete rows.
 import os
 import shutil
 import tempfile
+import time
 
 import numpy as np
 
@@ -141,9 +142,9 @@ def gen_specs(rep, tier):
             comps = U.compositions(6)
             extra = [[0, 0, 2, 2, 6], [0, 1, 1, 1, 6, 6], [0, 0, 6], [0, 3, 3, 6]]
             if quick and kind != 'point':
-                comps = rng.sample(comps, 10)
+                comps = rng.sample(comps, 5)
             for cuts in comps + extra:
-                keys = KEYS[:7] if not quick else [KEYS[i] for i in (0, 1, 2, 4, 6)]
+                keys = KEYS[:7] if not quick else [KEYS[i] for i in ((0, 2, 4) if len(cuts) % 2 else (1, 2, 6))]
                 spec(kind, els, k2, els2, 'g', [['from_delayed', cuts]], keys)
         # smaller frames: every split of n <= 4 rows of the 2nd template
         for n in ((3,) if quick else (1, 2, 3, 4, 5)):
@@ -173,13 +174,17 @@ def gen_specs(rep, tier):
                     [base, ['pack', rng.randint(1, 4), rng.choice([1, 5, 15])]],
                     [base, ['parquet', None, None]],
                     [base, ['parquet', 'h', None]],
-                    [base, ['parquet', rng.choice([None, 'g']), box]],
+                    ([base, ['parquet', rng.choice([None, 'g']), box]] if not quick else
+                     [base, ['filter_gt', rng.randint(0, 4)]]),
                     [base, ['cxp', list(KEYS[1])]],
                     [['from_concat', rng.randint(1, 5)]],
                     [base, ['mapid']],
                     [base, ['filter_isin', [0, 2, 3, 5]], ['cx', list(KEYS[0])]],
                 ]
-                for steps in provs:
+                ki = G.KINDS.index(kind)
+                for pi, steps in enumerate(provs):
+                    if quick and steps[-1][0] in ('pack', 'parquet') and (ki + pi) % 2:
+                        continue      # thinned in the quick tier: B2 / B3 and C09 cover them
                     keys = rng.sample(KEYS, 3 if quick else 5)
                     act = 'h' if steps[-1][0] in ('from_concat', 'mapid') else rng.choice(['g', 'g', 'h'])
                     spec(kind, els, k2, els2, act, steps, keys)
@@ -193,7 +198,7 @@ def gen_specs(rep, tier):
         cuts = list(range(nparts)) + [n]          # nparts partitions, the last holds two rows
         keys = [KEYS[0], KEYS[1], KEYS[7]] + ([] if quick else [KEYS[2], KEYS[6]])
         spec(kind, els, k2, els2, 'g', [['from_delayed', cuts], ['parquet', None, None]], keys)
-        if kind == 'point' or not quick:
+        if (kind == 'point' and nparts != 11) or not quick:
             m = min(60, 3 * nparts)               # enough distinct keys for nparts real parts
             els, k2, els2 = big_frame(kind, m)
             spec(kind, els, k2, els2, 'g',
@@ -221,7 +226,7 @@ def gen_specs(rep, tier):
         k2, els2 = second_column(kind)
         base = ['from_delayed', rng.choice([[0, 2, 4, 6], [0, 3, 6], [0, 1, 2, 3, 4, 5, 6]])]
         for steps in ([base], [base, ['set_geometry', 'h']], [base, ['pack', 2, 15]],
-                      [base, ['cache'], ['filter_isin', [0, 2, 3, 5]]]):
+                      [base, ['cache'], ['filter_isin', [0, 2, 3, 5]]])[:3 if quick else 4]:
             specs.append({'kind_g': kind, 'els_g': els, 'kind_h': k2, 'els_h': els2,
                           'active': 'g', 'steps': steps, 'keys': [list(k) for k in far_keys],
                           'offset': OFF, 'lazy': True})
@@ -810,6 +815,7 @@ def run(rep):
     numba.set_num_threads(1)
     with dask.config.set(scheduler='synchronous'):
         for spec in gen_specs(rep, tier):
+            _t0 = time.time()
             try:
                 run_spec(ctx, spec)
             except Exception as e:
@@ -817,7 +823,13 @@ def run(rep):
                 rep.violation('harness-or-library-raises:' + spec['steps'][-1][0],
                               f'{type(e).__name__}: {str(e)[:300]}',
                               {'spec': spec, 'trace': traceback.format_exc()[-1500:]})
+            _k = '+'.join(st[0] for st in spec['steps'])[:40] + ('/lazy' if spec.get('lazy') else '')
+            _tt = rep.extra.setdefault('seconds_by_provenance', {})
+            _tt[_k] = round(_tt.get(_k, 0) + time.time() - _t0, 1)
+    import time as _t
+    t0 = _t.time()
     flush(ctx)
+    rep.extra['coq_phase_s'] = round(_t.time() - t0, 1)
 
 
 def replay(rep, rp):
